@@ -45,6 +45,9 @@ def buildLeaf {α : Type} (lit : PyVal → α) (cls : CClass) (c : Ctor) (pos : 
   if pos.length > n && c.varPos.isNone then throw .typeError
   let extraKw := kw.filter (fun kv => !c.params.contains kv.1)
   if !extraKw.isEmpty && c.varKw.isNone then throw .typeError
+  -- a `**kwargs` name that is also a parameter the call passes through (`cls`, `self`, `callable`, `func`):
+  -- "got multiple values for argument"
+  if extraKw.any (fun kv => reservedKwNames.contains kv.1) then throw .typeError
   let bound ← bindCtorParams lit c.defaults c.params (pos.take n) kw
   let star := pos.drop n
   let get (name : String) : Except Exc α :=
